@@ -355,7 +355,7 @@ func (e *Engine) newCtx(t *Target) *FnCtx {
 	c := &FnCtx{eng: e, w: e.w, pkg: t.pkg, info: t.pkg.TypesInfo, fname: t.Key, spec: t.spec,
 		declared: map[string]bool{}, counts: map[string]int{}, paramVals: map[string]Val{}, paramObjs: map[string]types.Object{},
 		unmodelled: map[string]bool{}, trusted: map[string]bool{}, strLits: map[string]string{}, factCache: map[string]bool{},
-		ghost: map[string]Val{}, ghostFns: map[string]string{}, boxed: map[types.Object]bool{}, axiomsDone: map[string]bool{}, deps: map[string]bool{}, callHeapKeys: map[string]bool{}, sig: t.sig}
+		ghost: map[string]Val{}, ghostFns: map[string]string{}, boxed: map[types.Object]bool{}, knownInts: map[string]int64{}, axiomsDone: map[string]bool{}, deps: map[string]bool{}, callHeapKeys: map[string]bool{}, sig: t.sig}
 	if t.decl != nil {
 		c.decl = t.decl
 	} else if t.lit != nil {
@@ -699,7 +699,9 @@ func (c *FnCtx) ghostAssignFinal(st *State, cl *Clause, sig *types.Signature, fs
 	}
 	sc.vars[param] = vInt(bv)
 	sc.bound = map[string]bool{param: true}
+	c.openBound = append(c.openBound, bv)
 	body := sc.intOf(cl.Expr)
+	c.openBound = c.openBound[:len(c.openBound)-1]
 	nw := c.newHeapVersion(key)
 	c.declared[nw] = true
 	c.emit(fmt.Sprintf("(define-fun %s ((%s Int)) Int %s)", nw, bv, body))
